@@ -156,4 +156,45 @@ example : ∃ nd args, semBoom nd args = .raise (.user "boom") :=
 
 end examples
 
+/-! ## the exception OBJECT: its explicit cause (fix eaf8c90)
+
+`ErrId` identifies the exception object a node raised; the object also carries the cause its node gave it (`raise High(...) from low`).
+Every level of nesting re-raises the surfaced object once (`error_handling="raise"`, which nested runs always use). -/
+
+/-- the part of an exception object a re-raise can touch: which object it is, and its `__cause__` -/
+structure ExcObj where
+  id : ErrId
+  cause : Option ErrId
+  deriving DecidableEq, Repr
+
+/-- `raise error from error.__cause__` (both runner templates): the runner's own handling is hidden, the cause is kept -/
+def reraise (e : ExcObj) : ExcObj := { e with cause := e.cause }
+
+/-- `raise error from None`, what the templates did before the repair -/
+def reraiseOld (e : ExcObj) : ExcObj := { e with cause := .none }
+
+/-- surfacing through `depth` levels of nesting -/
+def surface (f : ExcObj → ExcObj) : Nat → ExcObj → ExcObj
+  | 0, e => e
+  | d + 1, e => surface f d (f e)
+
+/-- the exception reaches the caller as it left the node function — same object, same cause — through any depth of nesting -/
+theorem cause_survives_nesting (depth : Nat) (e : ExcObj) : surface reraise depth e = e := by
+  induction depth generalizing e with
+  | zero => rfl
+  | succ d ih => simpa [surface, reraise] using ih e
+
+/-- the unrepaired re-raise: one level is enough to strip an explicit cause (the identity survives, which is why no test noticed) -/
+theorem flaw_reraise_from_none (i c : ErrId) (depth : Nat) :
+    (surface reraiseOld (depth + 1) ⟨i, some c⟩).cause = .none ∧ (surface reraiseOld (depth + 1) ⟨i, some c⟩).id = i := by
+  have h : ∀ d (e : ExcObj), e.cause = .none → (surface reraiseOld d e).cause = .none ∧ (surface reraiseOld d e).id = e.id := by
+    intro d
+    induction d with
+    | zero => intro e he; exact ⟨he, rfl⟩
+    | succ d ih => intro e _; simpa [surface, reraiseOld] using ih { e with cause := .none } rfl
+  simpa [surface, reraiseOld] using h depth ⟨i, .none⟩ rfl
+
+example : surface reraise 3 ⟨.user "high", some (.user "low")⟩ = ⟨.user "high", some (.user "low")⟩ := cause_survives_nesting _ _
+example : (surface reraiseOld 1 ⟨.user "high", some (.user "low")⟩).cause = .none := by rfl
+
 end HG.C11
